@@ -145,7 +145,7 @@ func (b *sigBuilder) add(family string, ps []pSpec, r retSpec, feat map[string]s
 		in := map[string]string{"Path": "path", "Query": "query", "Header": "header", "FormField": "form", "Body": "body"}[p.loc]
 		exp.Params = append(exp.Params, SigParam{Name: wire, In: in, Required: !p.ptr || p.loc == "Path" || hasRequired(p.validate), Kinds: kinds})
 	}
-	m := scen.Method{Name: "Op" + id, Verb: "POST", Route: scen.S(route), Params: params, Response: r.response, ErrResps: r.errResps}
+	m := scen.Method{Name: "Op" + id, Verb: "POST", Route: scen.S(route), Params: params, Response: r.response, ErrResps: r.errResps, Style: b.n % 2}
 	if r.valKind != nil {
 		need(r.valKind.Decl)
 		m.Ret = sub(r.valKind.Go)
